@@ -451,8 +451,13 @@ class Gen:
             self.uses_yield = True
             kw = bytes(r.choice(cls) for _ in range(3))
             y = lambda: "yield %s;" % r.choice(self.ycodes)
+            # (a keyword at the same priority as the class it belongs to is a tie the compiler must reject)
+            prio = "prio 1 " if r.random() < 0.75 else ""
             body = ["/[a-h]+/ -> { %s }" % y(), "\"(\" -> { %s }" % y(), "/\\d+/ -> { %s }" % y(),
-                    "prio 1 %s -> { %s }" % (esc_str(kw), y()), "\" \" -> {}"]
+                    "%s%s -> { %s }" % (prio, esc_str(kw), y()), "\" \" -> {}"]
+            if r.random() < 0.3 and self.ints:
+                body[0] = "/[a-h]+/ -> { %s = 1; }" % self.ints[0]
+                body[3] = "%s%s -> { %s = 2; }" % (prio, esc_str(kw), self.ints[0])
             if r.random() < 0.5:
                 body.append("\".\" -> { break; }")
             smp = b" ".join(r.choice((kw, b"abc", b"(", b"12", bytes(r.choice(cls) for _ in range(2)))) for _ in range(r.choice((1, 3, 5)))) + b" ."
@@ -1014,3 +1019,60 @@ def generate_regexprog(rng):
     src = "\n".join(decl) + "\n\nparser {\n" + "\n".join("    " + x for x in body) + "\n}\n"
     return {"source": src, "need": [], "canaries": {}, "samples": [s.hex() for s in samples[-3:]] or [sample.hex()], "near_miss": False,
             "has_strings": True}
+
+
+# ------------------------------------------------------------------ greedy-case centred programs (priority ties)
+
+def generate_greedyprog(rng):
+    """
+    Programs around greedy cases whose arms only carry actions.  Keywords get random priorities,
+    so a share of the programs contains a tie between two patterns that can finish on the same
+    string - those must be rejected, and in the same way by every compilation.
+    Two layouts: a tokenizer loop with yielding arms, and a sequence of greedy-case sites each
+    followed by a terminator (arms assign an output).
+    """
+    r = rng
+    lo = r.choice((97, 105))
+    cls = list(range(lo, lo + 8))
+
+    def keywords():
+        kws = []
+        for _ in range(r.choice((1, 2, 2, 3))):
+            kw = bytes(r.choice(cls) for _ in range(r.choice((2, 3))))
+            if kw not in kws:
+                kws.append(kw)
+        return kws
+
+    if r.random() < 0.4:
+        kws = keywords()
+        codes = ["T0", "T1", "T2"] + ["K%d" % i for i in range(len(kws))]
+        arm = lambda i: "{ yield %s; }" % codes[i]
+        L = ["out int n0 = 0;", "yieldcode %s;" % ", ".join(codes), "", "parser {", "    loop {", "        greedy case {",
+             "            /[%s-%s]+/ -> %s" % (chr(cls[0]), chr(cls[-1]), arm(0)),
+             "            \"(\" -> %s" % arm(1),
+             "            /\\d+/ -> %s" % arm(2)]
+        for i, kw in enumerate(kws):
+            p = r.choice(("", "prio 1 ", "prio 1 ", "prio 2 "))
+            L.append("            %s%s -> %s" % (p, esc_str(kw), arm(3 + i)))
+        L += ["            \" \" -> {}", "        }", "    }", "}"]
+        parts = [r.choice(kws + [bytes(r.choice(cls) for _ in range(2)), b"(", b"12"]) for _ in range(r.choice((2, 4, 6)))]
+        smp = b" ".join(parts) + b" "
+        return {"source": "\n".join(L) + "\n", "need": ["-fyield-support"], "canaries": {}, "samples": [smp.hex(), (kws[0] + b" ").hex()],
+                "near_miss": False, "has_strings": False}
+    nsites = r.choice((1, 2, 3, 4))
+    L = ["out int n%d = 0;" % i for i in range(nsites)] + ["hook h0;", "", "parser {"]
+    smp = b""
+    samples = []
+    for i in range(nsites):
+        kws = keywords()
+        L.append("    greedy case {")
+        L.append("        /[%s-%s]+/ -> { n%d = 1; }" % (chr(cls[0]), chr(cls[-1]), i))
+        for j, kw in enumerate(kws):
+            p = r.choice(("", "", "prio 1 ", "prio 1 ", "prio 2 "))
+            L.append("        %s%s -> { n%d = %d; }" % (p, esc_str(kw), i, j + 2))
+        L += ["    }", "    \";\";", "    h0();"]
+        smp += r.choice(kws + [bytes(r.choice(cls) for _ in range(3))]) + b";"
+        samples.append(smp)
+    L.append("}")
+    return {"source": "\n".join(L) + "\n", "need": [], "canaries": {}, "samples": [x.hex() for x in samples[-2:]],
+            "near_miss": False, "has_strings": False}
